@@ -42,6 +42,32 @@ theorem write_string_kills_meta (s : TStr) : ∀ ch ∈ escapeStr s, isMeta ch.c
 theorem meta_in_prefilter_range :
     ∀ c ∈ ['<', '>', '"', '\'', '&'], (escapeOf c).isSome = true ∧ needsChar c = true := by decide
 
+/-- `write_escaped` in Html mode is sound for values of **every** kind: a value that is not a Safe
+    string — unmarked string, bytes (valid UTF-8 or not), number, boolean, none, undefined, list,
+    map, any other object — is written without a single `< > " '` -/
+theorem write_escaped_kills_meta_all_kinds (v : V) (h : ∀ s, v ≠ .str s true) :
+    ∀ ch ∈ writeEscaped .html v, isMeta ch.c = false := by
+  have : writeEscaped .html v = writeHtml v := by
+    unfold writeEscaped
+    split
+    · rename_i s; exact absurd rfl (h s)
+    · rfl
+  rw [this]
+  exact writeHtml_noMeta_nonstr v
+
+/-- the decision structure of `write_escaped` / `write_with_html_escaping` regenerated from
+    `utils.rs` (safe bypass first, mode dispatch, the integer / boolean fast paths, the string path
+    `as_str` → pre-filter or escaper, `Undefined | None | Bool | Number` → Display, everything else →
+    escaper on `to_string()`) is the one the model transcribes -/
+theorem write_escaped_dispatch_matches : Gen.c02WriteEscapedDispatch = modelDispatch := by decide
+
+/-- `Value::as_str` gives text for strings and for valid UTF-8 bytes only, as the model assumes -/
+theorem as_str_arms_match : Gen.c02AsStrArms = modelAsStrArms := by decide
+
+/-- every `ValueRepr` variant (regenerated from `value/mod.rs` together with its `ValueKind`) is
+    classed: "no metacharacter by construction" or "escaped via its text" -/
+theorem all_value_reprs_classified : ∀ v ∈ Gen.c02ValueReprKinds, (reprClass v).isSome = true := by decide
+
 /-- each primitive step of the fragment maps a state satisfying the invariant (all registers `Inv`,
     every capture buffer and the output free of data-tainted metacharacters) to such a state -/
 theorem step_preserves_inv (s : Step) (st st' : St) (hok : StepOk s) (h : StInv st)
